@@ -42,11 +42,72 @@ TRUSTED = ["rustc nightly MIR construction", "mirfacts extractor", "rules/engine
 
 VP = VALUE_PRESERVING
 TRYQ = [r"ops::Try::branch$"]
+VIEW = r"ops::Deref::deref$|Option::<T>::as_ref$|Option::<T>::as_deref$"      # the same value seen through a reference (`node.edges.as_ref()` = `&node.edges`)
 SEG_OK = VP + [r"string::ToString::to_string$"]          # segment -> String copies
 
 
+LOOKUP = r"^router::HttpRouter::<Context>::lookup_route$"
+SEGMENTS_THRU = VP + TRYQ + [r"iter::IntoIterator::into_iter$", r"iter::Iterator::by_ref$", r"Result::<T, E>::map_err$"]
+
+
 def _lr(ctx, R):
-    return ctx.need_fn(ctx.dsn, R, r"^router::HttpRouter::<Context>::lookup_route$")
+    """The function that holds the trie walk and builds the answer (found by role: the one construction site of RouterLookupResult).  That is
+    lookup_route itself - private helpers are analysed inlined - unless the body was moved into a helper the engine does not inline (size limit);
+    then the rules read that function and `_link` decides that lookup_route hands its own arguments to it and returns its answer."""
+    lr = ctx.need_fn(ctx.dsn, R, LOOKUP)
+    built = [f for f in ctx.dsn.F.values() if f.aggregates(r"^router::RouterLookupResult$")]
+    if len(built) == 1 and built[0] is not lr and built[0].raw["kind"] != "Closure":
+        return built[0]
+    return lr
+
+
+def _link(ctx, R, wf, want):
+    """lookup_route -> wf (see _lr).  Emits, under rule R, the checks that make a statement about wf's parameters a statement about lookup_route's:
+    wf is called from exactly one place, in lookup_route; the parameters named in `want` ("self", "method", "version", "segments") receive
+    lookup_route's own self / method / version unchanged, resp. into_iter(<Ok payload of input_path_to_segments(path)>) with nothing else applied;
+    and ("answer") every Ok value lookup_route returns is wf's return value.  Returns {role: wf parameter index} (empty when wf is lookup_route)."""
+    lr = ctx.need_fn(ctx.dsn, R, LOOKUP)
+    if wf is lr:
+        return {}
+    sites = callers(ctx.dsn, "^" + re.escape(wf.id) + "$")
+    if len(sites) != 1 or sites[0][0] is not lr or len(sites[0][2]["args"]) != wf.argc:
+        ctx.lost(R, "the single call of %s from lookup_route (call sites: %s)" % (wf.id, sorted(f.id for f, _, _ in sites)))
+        return None
+    _f, cbb, ct = sites[0]
+    roles = {}
+    for i, a in enumerate(ct["args"], start=1):
+        ty = wf.local_ty(i)
+        pa = access_path(lr, a, VP)
+        plain = pa.kind() == "param" and not pa.path and not [c for c in pa.call_names() if not re.search(VIEW, c)]
+        if i == 1 and "HttpRouter<" in ty:
+            role, ok, d = "self", plain and pa.root[1] == 1, "%r" % pa
+        elif "http::Method" in ty:
+            role, ok, d = "method", plain and "http::Method" in lr.local_ty(pa.root[1]), "%r" % pa
+        elif "semver::Version" in ty:
+            role, ok, d = "version", plain and pa.root[1] == version_param(lr) and not pa.calls, "%r" % pa
+        else:
+            ps = access_path(lr, a, SEGMENTS_THRU)
+            role = "segments"
+            ok = ps.is_call(r"^router::input_path_to_segments$") and ps.npath() == ["+", "0"] and any(c.endswith("into_iter") for c in ps.call_names())
+            d = "%r" % ps
+        if role in roles:
+            ctx.lost(R, "distinct roles of %s's parameters (two are `%s`)" % (wf.id, role))
+            return None
+        roles[role] = i
+        if role in want:
+            ctx.check(R, "walk-helper-gets-lookup_route's-%s" % role, ok, "lookup_route calls %s with %s = %s" % (wf.id.split("::")[-1], role, d), (lr, cbb))
+    if "answer" in want:
+        rets = sources(lr, {"l": 0, "p": []}, VP)
+        bad = [repr(q) for q in rets if not ((q.call() and q.call()[2] is ct and not q.path) or
+                                             (q.kind() == "agg" and q.root[2].get("adt") == "std::result::Result" and q.root[2].get("variant") == "Err" and not q.path) or
+                                             (q.is_call(r"ops::FromResidual::from_residual$") and not q.path))]
+        ctx.check(R, "lookup_route-returns-the-walk-helper's-answer", bool(rets) and not bad and any(q.call() and q.call()[2] is ct for q in rets),
+                  "lookup_route returns %s's result or an error of its own; anything else: %s" % (wf.id.split("::")[-1], bad), (lr, cbb))
+    missing = [r for r in want if r != "answer" and r not in roles]
+    if missing:
+        ctx.lost(R, "parameter(s) of %s carrying lookup_route's %s" % (wf.id, ", ".join(missing)))
+        return None
+    return roles
 
 
 def _ins(ctx, R):
@@ -152,13 +213,15 @@ def r2_one_endpoint(ctx):
     R = ctx.rule("C01.R2", "every field of lookup_route's Ok answer (handler, operation_id, body_content_type, request_body_max_bytes) is read from the one endpoint returned by a single "
                  "find_handler_matching_version(node.methods[METHOD], version); `variables` is the map the walk filled; version reaches the selection unmodified", floor=10)
     lr = _lr(ctx, R)
+    if _link(ctx, R, lr, ("self", "version", "answer")) is None:
+        return
     ok = _find_call(ctx, R, lr)
     if ok is None:
         return
     obb, ost = ok
     pres = access_path(lr, ost["rv"]["ops"][0], VP)
     n_res = [(f.id, bb) for f in ctx.ds.F.values() for bb, i, st in f.aggregates(r"^router::RouterLookupResult$")]
-    ctx.check(R, "one-RouterLookupResult-construction", len(n_res) == 1 and n_res[0][0] == lr.id, "aggregate sites of RouterLookupResult: %s" % n_res, lr)
+    ctx.check(R, "one-RouterLookupResult-construction", len(n_res) == 1 and n_res[0][0] == lr.id, "aggregate sites of RouterLookupResult: %s" % n_res, lr)        # (lr = the function _lr found by this role)
     if not (pres.kind() == "agg" and pres.root[2].get("adt") == "router::RouterLookupResult"):
         ctx.lost(R, "Ok(RouterLookupResult{..}) in lookup_route (Ok payload is %r)" % pres)
         return
@@ -257,16 +320,18 @@ def _variables_local(lr):
 
 
 # --------------------------------------------------------------------------- R3
-def _segment_nexts(lr):
+def _segment_nexts(lr, seg_param=None):
     """Iterator::next calls on the request-segment iterator: (outer, [inner...], iterator local) by dominance; the
     iterator is the one built by into_iter(<segments from input_path_to_segments>), whatever it is called and
-    however the Result of input_path_to_segments was split (`?`, match, let-else)."""
+    however the Result of input_path_to_segments was split (`?`, match, let-else) - or the by-value iterator parameter
+    `seg_param` that `_link` established to receive exactly that."""
     cands = []
-    thru = VP + TRYQ + [r"iter::IntoIterator::into_iter$", r"iter::Iterator::by_ref$", r"Result::<T, E>::map_err$"]
+    thru = SEGMENTS_THRU
     for bb, t in lr.live_calls(r"iter::Iterator::next$"):
         pr = access_path(lr, t["args"][0], thru)
-        if pr.is_call(r"^router::input_path_to_segments$") and pr.npath() == ["+", "0"] and any(c.endswith("into_iter") for c in pr.call_names()):
-            cands.append((bb, t, _iterator_local(lr, t["args"][0])))
+        if (pr.is_call(r"^router::input_path_to_segments$") and pr.npath() == ["+", "0"] and any(c.endswith("into_iter") for c in pr.call_names())) or \
+                (seg_param is not None and pr.kind() == "param" and pr.root[1] == seg_param and not pr.path):
+            cands.append((bb, t, _iterator_local(lr, t["args"][0], seg_param)))
     if not cands:
         return None, [], None
     its = set(c[2] for c in cands)
@@ -278,12 +343,17 @@ def _segment_nexts(lr):
     return outer[0], [c for c in cands if c is not outer[0]], list(its)[0]
 
 
-def _iterator_local(lr, op):
+def _iterator_local(lr, op, seg_param=None):
     """Identity of the iterator that `op` (`&mut it`, `it.by_ref()`, `(&mut it).into_iter()` of a for loop, reborrows)
-    refers to: the site of the into_iter call that built it from the collection, plus where the collection lives."""
+    refers to: the site of the into_iter call that built it from the collection, plus where the collection lives
+    (or: the iterator parameter seg_param itself)."""
     p = access_path(lr, op, [r"iter::Iterator::by_ref$", r"ops::DerefMut::deref_mut$", r"iter::IntoIterator::into_iter$"])
+    if [c for c, bb in p.calls if not re.search(r"into_iter$|by_ref$|deref_mut$", c)]:
+        return None
+    if seg_param is not None and p.kind() == "param" and p.root[1] == seg_param and not p.path:
+        return ("param", seg_param)         # (`&mut it`.into_iter() of a for loop over the parameter is the parameter)
     made = [bb for c, bb in p.calls if c.endswith("into_iter")]
-    if not made or [c for c, bb in p.calls if not re.search(r"into_iter$|by_ref$|deref_mut$", c)]:
+    if not made:
         return None
     return (made[-1], p.root[0], p.root_local(), tuple(p.path))
 
@@ -363,7 +433,10 @@ def r3_walk_integrity(ctx):
                  "descend to child; VariableRest(name, child) -> variables[name] = Components(current segment followed by every remaining segment), descend to child; after the last "
                  "segment a VariableRest edge binds Components([]); `node` is assigned nowhere else", floor=17)
     lr = _lr(ctx, R)
-    outer, inners, it_local = _segment_nexts(lr)
+    roles = _link(ctx, R, lr, ("self", "segments"))
+    if roles is None:
+        return
+    outer, inners, it_local = _segment_nexts(lr, roles.get("segments"))
     if outer is None:
         ctx.lost(R, "the Iterator::next call that drives the walk over input_path_to_segments' result")
         return
@@ -423,7 +496,7 @@ def r3_walk_integrity(ctx):
             return None
         bb, t = ai[0]
         pk = access_path(lr, t["args"][1], VP)
-        okk = pk.root_local() == node and pk.path == ["edges", "as Some", "0", "as " + kind, "0"] and not [c for c in pk.call_names() if not c.endswith("Clone::clone")]
+        okk = pk.root_local() == node and pk.path == ["edges", "as Some", "0", "as " + kind, "0"] and not [c for c in pk.call_names() if not re.search(r"Clone::clone$|" + VIEW, c)]
         ctx.check(R, "%s:key-is-the-edge's-variable-name" % kind, okk, "variables key is %r" % pk, (lr, bb))
         pv = access_path(lr, t["args"][2], VP)
         okv = pv.kind() == "agg" and pv.root[2].get("adt") == "router::VariableValue" and pv.root[2].get("variant") == want_variant
@@ -462,13 +535,13 @@ def r3_walk_integrity(ctx):
         oke = False
         if len(extends) == 1 and not pushes:
             ebb, et = extends[0]
-            same_it = _iterator_local(lr, et["args"][1]) == it_local and it_local is not None
+            same_it = _iterator_local(lr, et["args"][1], roles.get("segments")) == it_local and it_local is not None
             oke = same_it and lr.dominates(ebb, bb) and obb not in lr.reachable(ebb, avoid=[bb])
             dd.append("extend(<the walk's iterator>: %s)" % same_it)
         okch = False
         if len(chains) == 1 and not pushes and not extends:
             cbb, cop = chains[0]
-            same_it = _iterator_local(lr, cop) == it_local and it_local is not None
+            same_it = _iterator_local(lr, cop, roles.get("segments")) == it_local and it_local is not None
             okch = same_it and lr.dominates(cbb, bb) and obb not in lr.reachable(cbb, avoid=[bb])
             dd.append("once(seed).chain(<the walk's iterator>: %s).collect()" % same_it)
         ctx.check(R, "VariableRest:every-remaining-segment-pushed-in-order", (okp and exhaust and not extends and not chains) or (oke and not chains) or okch,
@@ -495,7 +568,7 @@ def r3_walk_integrity(ctx):
                 if p.is_call(r"BTreeMap::<K, V, A>::get$") and p.npath() == ["+", "0"] and child_defs.get("Literals") and p.call()[2] is child_defs["Literals"][2]:
                     kind = "Literals"
                 elif p.root_local() == node and p.kind() == "local" and len(p.path) == 5 and p.npath()[:3] == ["edges", "+", "0"] and p.path[4] == "1" and \
-                        p.path[3] in ("as VariableSingle", "as VariableRest") and not [c for c in p.call_names() if not re.search(r"Try::branch$|ok_or_else$|ok_or$|Deref::deref$", c)]:
+                        p.path[3] in ("as VariableSingle", "as VariableRest") and not [c for c in p.call_names() if not re.search(r"Try::branch$|ok_or_else$|ok_or$|" + VIEW, c)]:
                     kind = p.path[3][3:]
                 if kind is None:
                     stray.append(repr(p))
@@ -564,6 +637,8 @@ def _method_key(fn, key_op):
 def r4_key_normalisation(ctx):
     R = ctx.rule("C01.R4", "insert and lookup_route key the per-node method table with the same normalisation of Method::as_str (to_uppercase on both sides)", floor=3)
     lr = _lr(ctx, R)
+    if _link(ctx, R, lr, ("method",)) is None:
+        return
     ins = _ins(ctx, R)
     # lookup side: get(node.methods, key)
     lk = [(bb, t) for bb, t in lr.live_calls(r"BTreeMap::<K, V, A>::get$") if access_path(lr, t["args"][0], VP).path == ["methods"]]
@@ -593,6 +668,10 @@ VERSION_OPS = {
     ("router::HttpRouter::<Context>::insert", "ne"): "has_versioned_routes flag (versions != All)",
 }
 SELECTING = r"iter::Iterator::(find|filter|rfind)$|iter::DoubleEndedIterator::rfind$"
+# an Option-returning closure (Some(element) exactly where the predicate holds) selects when handed to these (std: filter_map keeps the Some payloads in
+# order, find_map returns the first Some payload)
+OPTION_SELECTING = r"iter::Iterator::(filter_map|find_map)$"
+THEN_SOME = r"bool::<impl bool>::then_some$"
 SELECT_CHAIN = [r"iter::IntoIterator::into_iter$", r"slice::<impl \[T\]>::iter$", r"iter::Iterator::(find|filter|next|last|rev|by_ref|peekable|fuse)$",
                 r"iter::DoubleEndedIterator::(next_back|rfind)$"]
 
@@ -641,10 +720,27 @@ def _matches_site(ctx, f, bb, t):
             out["verdict"] = "predicate" if good else None
             out["why"] = "closure returns matches(..) itself and is handed to %s" % sorted(set((ut.get("callee") or "?").split("::")[-1] for _g, _b, ut in users))
             return out
+        if len(rets) == 1 and rets[0].is_call(THEN_SOME) and not rets[0].path and len(rets[0].call()[2]["args"]) == 2:
+            # `matches(..).then_some(x)` (std: Some(x) if the receiver is true, None otherwise): the receiver is the un-negated result of this very call
+            tt = rets[0].call()[2]
+            pc = access_path(f, tt["args"][0], [])
+            px = access_path(f, tt["args"][1], VP)
+            own = pc.call() is not None and pc.call()[2] is t and not pc.path
+            carries = 2 in f.slice(tt["args"][1]).params()
+            users = _enclosing_adaptor_calls(ds, f)
+            good = bool(users) and all(re.search(OPTION_SELECTING, ut.get("callee") or "") for _g, _b, ut in users)
+            out["verdict"] = "option" if own and carries and good else None
+            out["payload_is_element"] = px.kind() == "param" and px.root[1] == 2 and not px.path and not [c for c in px.call_names() if not c.endswith("Deref::deref")]
+            out["why"] = "closure returns <bool>.then_some(x): the bool is matches(..) itself: %s; x carries the element: %s; handed to %s" % (
+                own, carries, sorted(set((ut.get("callee") or "?").split("::")[-1] for _g, _b, ut in users)))
+            return out
         oks = bool(somes) and all(f.guarded_by(b, atoms_true=[atom])[0] and 2 in f.slice(st["rv"]["ops"][0]).params() for b, st in somes)
         okn = bool(nones) and all(f.guarded_by(b, atoms_false=[atom])[0] for b, st in nones)
         only = all(p.kind() == "agg" and p.root[2].get("adt") == "std::option::Option" for p in rets)
         out["verdict"] = "option" if oks and okn and only else None
+        out["payload_is_element"] = bool(somes) and all(
+            (lambda q: q.kind() == "param" and q.root[1] == 2 and not q.path and not [c for c in q.call_names() if not c.endswith("Deref::deref")])(access_path(f, st["rv"]["ops"][0], VP))
+            for b, st in somes)
         out["why"] = "Some(element) only where matches(..) was true: %s; None only where it was false: %s; nothing else is returned: %s" % (oks, okn, only)
         return out
     _, nbb, nt = out["element"]
@@ -731,6 +827,20 @@ def r5_one_version_predicate(ctx):
             okf = not bad and okcl and len(sel) >= 1 and 1 in rs.params()
             d = "return value is built from parameter(s) %s through %s; selecting closures: %s; other callees: %s" % (
                 rs.params(), sorted(set(c.split("::")[-1] for c in rs.callee_names())), sel, [b[0] for b in bad])
+        elif role["verdict"] == "option" and f is not fh:
+            # find_map(|h| matches(h).then_some(h)) / filter_map(..).next(): the Some payload must be the element itself
+            rs = fh.slice({"l": 0, "p": []})
+            bad = callee_allow(rs, PLUMBING + SELECT_CHAIN + [OPTION_SELECTING])
+            sel, okcl = [], True
+            for c, cbb, ct in rs.callees:
+                for h, node in closure_args_of_call(fh, ct):
+                    if h is f and re.search(OPTION_SELECTING, c):
+                        sel.append(h.id)
+                    else:
+                        okcl = False
+            okf = not bad and okcl and len(sel) >= 1 and 1 in rs.params() and bool(role.get("payload_is_element"))
+            d = "return value is built from parameter(s) %s through %s; Option-returning selecting closures: %s (Some payload is the element itself: %s); other callees: %s" % (
+                rs.params(), sorted(set(c.split("::")[-1] for c in rs.callee_names())), sel, bool(role.get("payload_is_element")), [b[0] for b in bad])
         else:
             d = "the predicate is used as `%s`, which does not return the selected element of `handlers`" % role["verdict"]
     ctx.check(R, "find-selects-by-the-predicate-only", okf, d, fh)
@@ -961,6 +1071,8 @@ SV = "dropshot/src/server.rs"
 REST_LOOP = "                    let mut rest = vec![segment];\n                    while let Some(segment) = all_segments.next() {\n                        rest.push(segment);\n                    }\n"
 SELECT_CALL = "find_handler_matching_version(\n            node.methods.get(&methodname).map(|v| v.as_slice()).unwrap_or(&[]),\n            version,\n        ) "
 
+FIND_SEL = "handlers.into_iter().find(|h| h.versions.matches(version))"
+
 SELFTEST = [
     # ---------------------------------------------------------------- mutants
     {"name": "lookup-key-not-uppercased", "kind": "mutant", "expect": ["C01.R4"],
@@ -1084,7 +1196,42 @@ SELFTEST = [
     {"name": "selection-and-then-no-version", "kind": "mutant", "expect": ["C01.R2"],
      "edits": [(RT, SELECT_CALL, "node\n            .methods\n            .get(&methodname)\n            .and_then(|handlers| find_handler_matching_version(handlers, None))\n        ")],
      "why": "selection written with and_then, but without the request's version"},
+    # ---- the idioms of benign-C05-R10 / benign-C03-R10 (then_some selection, conflict loop over the list seen as a slice, edges.as_ref()) with a defect inside
+    {"name": "selection-then-some-negated", "kind": "mutant", "expect": ["C01.R5"],
+     "edits": [(RT, FIND_SEL, "handlers.into_iter().find_map(|h| (!h.versions.matches(version)).then_some(h))")],
+     "why": "selection written as find_map(..then_some), but of the first handler NOT serving the request's version"},
+    {"name": "selection-then-some-second-match", "kind": "mutant", "expect": ["C01.R5"],
+     "edits": [(RT, FIND_SEL, "handlers.into_iter().filter_map(|h| h.versions.matches(version).then_some(h)).nth(1)")],
+     "why": "the Option-returning predicate is right, but the first selected handler is skipped"},
+    {"name": "selection-then-some-not-a-selection", "kind": "mutant", "expect": ["C01.R5"],
+     "edits": [(RT, FIND_SEL, "handlers.into_iter().map(|h| h.versions.matches(version).then_some(h)).last().flatten()")],
+     "why": "then_some(h) handed to map + last: the answer is the last registered handler if it matches, whatever the others do (None although an earlier one matches)"},
+    {"name": "conflict-loop-over-slice-skips-first", "kind": "mutant", "expect": ["C01.R6"],
+     "edits": [(RT, "for handler in existing_handlers.iter() {", "for handler in existing_handlers.as_slice().iter().skip(1) {")],
+     "why": "the conflict test runs over the list seen as a slice, but not over its first element"},
+    {"name": "walk-matches-root-edges-as-ref", "kind": "mutant", "expect": ["C01.R3"],
+     "edits": [(RT, "            node = match &node.edges {\n                None => None,", "            node = match self.root.edges.as_ref() {\n                None => None,")],
+     "why": "edges taken through Option::as_ref, but of the root instead of the node reached: every segment is matched against the first level of the trie"},
     # ---------------------------------------------------------------- benign variants
+    {"name": "benign-selection-find-map-then-some", "kind": "benign",
+     "edits": [(RT, FIND_SEL, "handlers.into_iter().find_map(|candidate| candidate.versions.matches(version).then_some(candidate))")],
+     "why": "behaviour-preserving: find(p) written as find_map(|x| p(x).then_some(x))"},
+    {"name": "benign-conflict-loop-in-helper-over-slice", "kind": "benign",
+     "edits": [(RT, "        for handler in existing_handlers.iter() {\n            if handler.versions.overlaps_with(&endpoint.versions) {\n                if handler.versions == endpoint.versions {\n                    panic!(\n"
+                "                        \"URI path \\\"{}\\\": attempted to create duplicate route \\\n                        for method \\\"{}\\\"\",\n                        path, methodname\n                    );\n"
+                "                } else {\n                    panic!(\n                        \"URI path \\\"{}\\\": attempted to register multiple \\\n                        handlers for method \\\"{}\\\" with overlapping version \\\n"
+                "                        ranges\",\n                        path, methodname\n                    );\n                }\n            }\n        }\n",
+                "        refuse_version_conflict(existing_handlers.as_slice(), &endpoint.versions, &path, &methodname);\n"),
+               (RT, "/// Insert a variable into the set after checking for duplicates.",
+                "fn refuse_version_conflict<C: ServerContext>(registered: &[ApiEndpoint<C>], new_versions: &ApiEndpointVersions, path: &str, methodname: &str) {\n"
+                "    for handler in registered {\n        if !handler.versions.overlaps_with(new_versions) {\n            continue;\n        }\n"
+                "        if handler.versions == *new_versions {\n            panic!(\"URI path \\\"{}\\\": attempted to create duplicate route for method \\\"{}\\\"\", path, methodname);\n        }\n"
+                "        panic!(\"URI path \\\"{}\\\": attempted to register multiple handlers for method \\\"{}\\\" with overlapping version ranges\", path, methodname);\n    }\n}\n\n"
+                "/// Insert a variable into the set after checking for duplicates.")],
+     "why": "behaviour-preserving: the conflict loop extracted into a private helper that takes the list as a slice and uses guard clauses"},
+    {"name": "benign-edges-as-ref", "kind": "benign",
+     "edits": [(RT, "            node = match &node.edges {\n                None => None,", "            node = match node.edges.as_ref() {\n                None => None,")],
+     "why": "behaviour-preserving: `&node.edges` matched as `node.edges.as_ref()`"},
     {"name": "benign-extra-statement-in-walk", "kind": "benign",
      "edits": [(RT, "            let segment_string = segment.to_string();\n", "            let segment_string = segment.to_string();\n            let _depth = variables.len();\n")],
      "why": "behaviour-preserving: an unrelated read of the variables map inside the walk loop"},
